@@ -313,6 +313,7 @@ def run_check(prop: str, tier: str) -> int:
     t0 = time.monotonic()
     vseed = int(os.environ.get("VERIF_SEED", "0") or 0)
     print(f"dsim check property={prop} tier={tier} VERIF_SEED={vseed} src={src_root()}")
+    core.sweep_stale_scratch()
     meta: dict = {}
     # budget comes from the engine (reported by the zygote); ask one zygote first
     z0 = Zygote(prop, cpu=0)
